@@ -440,6 +440,20 @@ theorem gen_loc_ctor_eq (loc : NArr ℝ) :
       (GenFam.Loc.init loc).toBij = Bij.elementwise (loc.data.map (fun l => (Ctors.loc l).toBij)) :=
   ⟨rfl, rfl, rfl⟩
 
+/-- `VmapMixture.log_normalized_weights` on the generated constructor: whatever positive weights are passed and whatever non-empty raw
+array is stored afterwards, `exp` of the unwrapped leaf is a probability vector -/
+theorem gen_mixture_weights_normalised {X K : Type} (dist : VDist X K ℝ) (w : NArr ℝ) (m : MixtureObj X K ℝ)
+    (h : GenFam.VmapMixture.init dist w = some m) (hne : w.data ≠ []) (raw : List ℝ) (hr : raw ≠ []) :
+    (m.unwrap.log_normalized_weights.map Real.exp).sum = 1 ∧
+    (((MixtureObj.unwrap { m with log_normalized_weights := { m.log_normalized_weights with args := raw } }).log_normalized_weights).map
+        Real.exp).sum = 1 := by
+  by_cases hany : (List.map (fun x => decide (x ≤ 0)) w.data).any id = true
+  · simp [GenFam.VmapMixture.init, errorIf, leZero, hany] at h
+  · simp only [GenFam.VmapMixture.init, errorIf, leZero, hany, Bool.false_eq_true, if_false, Option.bind_some, Option.some.injEq] at h
+    subst h
+    simp only [MixtureObj.unwrap, Gen.Wr.Lambda.unwrap, Gen.mixtureLogNormalizedWeights, jnp_logSoftmax_eq]
+    exact ⟨FamiliesPf.logSoftmax_normalised (by simpa [Gen.mixtureRawInit] using hne), FamiliesPf.logSoftmax_normalised hr⟩
+
 /-- non-vacuity: a negative-free broadcasting constructor call and a rejected `df` -/
 theorem gen_ctor_instance :
     (∃ d, GenFam.Affine.init (⟨[3], [0, 1, 2]⟩ : NArr ℝ) ⟨[2, 1], [1, 2]⟩ = some d ∧ d.shape = [2, 3] ∧
